@@ -43,7 +43,7 @@ ASSUMPTIONS = [
     "process-global torch state is varied only around the operator calls (scenes are built in the default state) and always restored; in situ only use_deterministic_algorithms(True) is used",
     "in-situ events whose inputs are not finite (optimiser diverged) are counted, not judged; pure-phase conservation is judged with apply_fov_mask and identical_slices off",
 ]
-BUDGET = {"quick": {"soft_s": 110, "workers": 14}, "thorough": {"soft_s": 800, "workers": 14}}
+BUDGET = {"quick": {"soft_s": 300, "workers": 14}, "thorough": {"soft_s": 1200, "workers": 14}}
 MIN_EVALUATIONS = {"quick": 3000, "thorough": 30000}
 REQUIRED_COUNTERS = [
     "eval:translation_energy", "eval:translation_additivity", "eval:integer_shift_not_roll", "eval:propagator_not_unit_modulus", "eval:propagator_additivity",
